@@ -6,8 +6,8 @@
 
 namespace {
 
-enum WKind { W_CORO = 0, W_WAIT, W_SYNC, W_CB, W_HASV, W_POLL, W_NK };
-static const char *wk_names[] = {"coro", "wait", "sync", "cb", "hasv", "poll"};
+enum WKind { W_CORO = 0, W_WAIT, W_SYNC, W_CB, W_HASV, W_POLL, W_CBFN, W_NK };
+static const char *wk_names[] = {"coro", "wait", "sync", "cb", "hasv", "poll", "cbfn"};
 enum RKind { R_VAL = 0, R_EXC, R_DROP, R_DESTROY, R_ASYNC, R_ASYNCEXC, R_NK };
 static const char *rk_names[] = {"val", "exc", "drop", "destroy", "async", "asyncexc"};
 
@@ -81,7 +81,24 @@ struct CbAwaiter : cocls::awaiter {
     }
 };
 
-static void waiter_thread(cocls::future<Counted> &f, int id, int kind, CbAwaiter *cb) {
+// the library's own callback registration: co_awaiter::await_suspend(resume_fn, context) - what thread_pool's
+// pool(awaitable), immediately() and parallel() use; the co_awaiter itself is the node in the awaiter chain
+struct FnCtx {
+    cocls::future<Counted> *f;
+    int id;
+};
+static cocls::suspend_point<void> fn_released(cocls::awaiter *, void *ctx) noexcept {
+    auto *c = static_cast<FnCtx *>(ctx);
+    if (!c) {
+        vrt_fail("future/callback-without-context", "the registered callback was invoked without its context pointer");
+        return {};
+    }
+    released(c->id, observe(*c->f));
+    return {};
+}
+using FnAwaiter = cocls::co_awaiter<cocls::future<Counted>>;
+
+static void waiter_thread(cocls::future<Counted> &f, int id, int kind, CbAwaiter *cb, FnAwaiter *fnaw, FnCtx *fnctx) {
     static const char *labels[] = {"w0", "w1", "w2"};
     vrt_label(labels[id]);
     switch (kind) {
@@ -112,6 +129,9 @@ static void waiter_thread(cocls::future<Counted> &f, int id, int kind, CbAwaiter
             if (!aw.subscribe(cb)) released(id, observe(f));  // already resolved: documented contract is "call await_resume yourself"
             break;
         }
+        case W_CBFN:
+            if (!fnaw->await_suspend(&fn_released, fnctx)) released(id, observe(f));  // false: already resolved, nothing registered
+            break;
         case W_POLL:
             while (!f.ready()) vrt_yield();
             released(id, observe(f));
@@ -142,7 +162,9 @@ static void scenario(int nw, const int *wk, int rk) {
         }
         CbAwaiter cbs[3] = {CbAwaiter(*f, 0), CbAwaiter(*f, 1), CbAwaiter(*f, 2)};
         vstd::thread wt[3], rt;
-        for (int i = 0; i < nw; i++) wt[i] = vstd::thread(waiter_thread, std::ref(*f), i, wk[i], &cbs[i]);
+        FnAwaiter fnaws[3] = {FnAwaiter(*f), FnAwaiter(*f), FnAwaiter(*f)};
+        FnCtx fnctx[3] = {{f.get(), 0}, {f.get(), 1}, {f.get(), 2}};
+        for (int i = 0; i < nw; i++) wt[i] = vstd::thread(waiter_thread, std::ref(*f), i, wk[i], &cbs[i], &fnaws[i], &fnctx[i]);
         rt = vstd::thread([&] {
             vrt_label("resolver");
             switch (rk) {
@@ -201,7 +223,7 @@ VRT_REGISTER(reg_wake) {
                 });
             }
         // three waiters: a few mixes
-        static const int mixes[][3] = {{W_CORO, W_CORO, W_CORO}, {W_CORO, W_WAIT, W_CB}, {W_WAIT, W_WAIT, W_WAIT}, {W_HASV, W_SYNC, W_POLL}, {W_CB, W_CB, W_CORO}};
+        static const int mixes[][3] = {{W_CORO, W_CORO, W_CORO}, {W_CORO, W_WAIT, W_CB}, {W_WAIT, W_WAIT, W_WAIT}, {W_HASV, W_SYNC, W_POLL}, {W_CB, W_CB, W_CORO}, {W_CBFN, W_CBFN, W_WAIT}};
         for (auto &m : mixes) {
             std::string name = std::string("wake3_") + wk_names[m[0]] + "-" + wk_names[m[1]] + "-" + wk_names[m[2]] + "_" + rk_names[rk];
             int a = m[0], b = m[1], c = m[2];
